@@ -328,12 +328,21 @@ func RunApalache(module string, timeout time.Duration, args ...string) (string, 
 		return "", false, err
 	}
 	defer os.RemoveAll(scratch)
-	b, err := os.ReadFile(filepath.Join(VerifRoot(), "spec", module+".tla"))
+	ents, err := os.ReadDir(filepath.Join(VerifRoot(), "spec"))
 	if err != nil {
 		return "", false, err
 	}
-	if err := os.WriteFile(filepath.Join(scratch, module+".tla"), b, 0o644); err != nil {
-		return "", false, err
+	for _, e := range ents { // the module and whatever it extends
+		if e.IsDir() || !strings.HasSuffix(e.Name(), ".tla") {
+			continue
+		}
+		b, err := os.ReadFile(filepath.Join(VerifRoot(), "spec", e.Name()))
+		if err != nil {
+			return "", false, err
+		}
+		if err := os.WriteFile(filepath.Join(scratch, e.Name()), b, 0o644); err != nil {
+			return "", false, err
+		}
 	}
 	ctx, cancel := context.WithTimeout(context.Background(), timeout)
 	defer cancel()
